@@ -323,19 +323,57 @@ def permuted_base_graph(M, base_text, entry):
     return g
 
 
-def run_resolver(M, text, last_all_atom=True, legacy=True, how='resolve', entry='string'):
+def split_all_layers(text):
+    """['{base}', '{layer 1}', ...] of a layered string (symbolic text allowed; braces and dots between layers are concrete)"""
+    items = symx.SymStr.lift(text)._chs
+    out, start = [], 0
+    for i, c in enumerate(items):
+        if isinstance(c, str) and c == '}':
+            out.append(symx.SymStr.mk(items[start:i + 1]))
+            start = i + 2
+    return out
+
+
+# the ways a user can get the same resolution out of the library: constructor x driver x what happened before in the process
+VARIANTS = [
+    {},
+    {'entry': 'graph_rev'},
+    {'entry': 'dicts'},
+    {'how': 'all'},
+    {'how': 'iter'},
+    {'prelude': True},
+    {'entry': 'graph_rot', 'how': 'all', 'prelude': True},
+    {'entry': 'dicts', 'how': 'iter'},
+]
+
+
+def run_resolver(M, text, last_all_atom=True, legacy=True, how='resolve', entry='string', prelude_first=False):
+    R = M.resolve.MoleculeResolver
+    if prelude_first:
+        prelude(M)
     if entry == 'string':
-        res = M.resolve.MoleculeResolver.from_string(text, last_all_atom=last_all_atom, legacy=legacy)
+        res = R.from_string(text, last_all_atom=last_all_atom, legacy=legacy)
+    elif entry == 'dicts':
+        layers = split_all_layers(text)
+        dicts = R.read_fragment_strings(layers[1:], last_all_atom=last_all_atom)
+        res = R.from_fragment_dicts(layers[0], dicts, last_all_atom=last_all_atom, legacy=legacy)
     else:
         base, rest = split_layers(text)
-        res = M.resolve.MoleculeResolver.from_graph(rest, permuted_base_graph(M, base, entry), last_all_atom=last_all_atom, legacy=legacy)
+        res = R.from_graph(rest, permuted_base_graph(M, base, entry), last_all_atom=last_all_atom, legacy=legacy)
     if how == 'resolve':
         meta, mol = res.resolve()
+        for _ in range(res.resolutions - 1):      # a layered string: resolve() once per level
+            meta, mol = res.resolve()
     elif how == 'all':
         meta, mol = res.resolve_all()
     else:
         *_, (meta, mol) = res.resolve_iter()
     return {'meta': meta_data(meta), 'mol': graph_data(mol)}
+
+
+def run_variant(M, text, variant, **kw):
+    return run_resolver(M, text, how=variant.get('how', kw.pop('how', 'resolve')), entry=variant.get('entry', kw.pop('entry', 'string')),
+                        prelude_first=bool(variant.get('prelude')), **kw)
 
 
 # ---- spec-side comparison --------------------------------------------------
